@@ -1,24 +1,37 @@
 (** extraction of the executable history model for the C06 correspondence.
     One case line = one abstract file + a batch of selections:
       hist TAB sim TAB short_types TAB sets TAB metas TAB state TAB fuel TAB sel TAB sel ...
-      sim         : A | 2 | P
+      sim         : A | 2 | P | Q   (Q = TOUGH+ with the repaired skip_to_table_TOUGHplus)
       short_types : kind letters, e.g. EG
       sets        : terminated by ';', each  s|f followed by the kind letters of its tables (E C P G U)
       metas       : terminated by ';', each  name:rev:rowline:short:keys
                       rowline '-' or ints terminated by ',' ; short pairs a=b terminated by ',' ;
                       keys terminated by '/', block ids inside a key separated by '.'
       state       : index/time/step
+      fuel        : a number, or 'B' for the bound [fuel_bound] computed from the sets
       sel         : 0|1 (short) '!' items terminated by ';', each  spec:key:col  with key i<int> | n<id.id>
-    Result, per selection, TAB separated:  NONE@state | RAISE <exn> |
-      items terminated by ';' ( D | sign:F|A:table:line:landings ) '@' state, landings  pos.a.j  terminated by ',' *)
+    Result, per selection, TAB separated:  flags '|' ( NONE@state | RAISE <exn> |
+      items terminated by ';' ( D | sign:F|A:table:line:landings ) '@' state ), landings  pos.a.j  terminated by ','
+      flags: four 0/1 digits = wf_file, wf_metas, covers, file_hangs (the hypotheses of the theorems of
+      Props.v evaluated on this file abstraction and selection) *)
 From Coq Require Import Ascii String List Bool ZArith NArith.
 From PTBase Require Import Exn PyStr PyNum PyVal Wire.
-From P Require Import ListingHistory.
+From P Require Import ListingHistory HistoryFuel HistorySpec.
 Import ListNotations.
 Open Scope char_scope.
 
+(** linear-time split (stdlib [rev], which PyStr.split_c uses, is quadratic after extraction, and a
+    case line here carries every row name of every table) *)
+Fixpoint split_fast_aux (ch : ascii) (cur : str) (s : str) (acc : list str) : list str :=
+  match s with
+  | [] => rev_append acc [rev_append cur []]
+  | c :: r => if ceqb c ch then split_fast_aux ch [] r (rev_append cur [] :: acc) else split_fast_aux ch (c :: cur) r acc
+  end.
+Definition split_f (ch : ascii) (s : str) : list str := split_fast_aux ch [] s [].
+Fixpoint drop_last {A} (l : list A) (acc : list A) : list A :=
+  match l with [] => [] | [_] => rev_append acc [] | x :: r => drop_last r (x :: acc) end.
 Definition split_term (ch : ascii) (s : str) : list str :=
-  match s with [] => [] | _ => removelast (split_c ch s) end.
+  match s with [] => [] | _ => drop_last (split_f ch s) [] end.
 
 Definition parse_kind (c : ascii) : kind :=
   match c with "E" => KE | "C" => KC | "P" => KP | "G" => KG | _ => KU end.
@@ -29,10 +42,10 @@ Definition parse_set (s : str) : pset :=
   end.
 Definition parse_ints (s : str) : list Z := map z_of_str (split_term "," s).
 Definition parse_pair (s : str) : Z * Z :=
-  match split_c "=" s with [a; b] => (z_of_str a, z_of_str b) | _ => (0%Z, 0%Z) end.
-Definition parse_keyname (s : str) : list Z := map z_of_str (split_c "." s).
+  match split_f "=" s with [a; b] => (z_of_str a, z_of_str b) | _ => (0%Z, 0%Z) end.
+Definition parse_keyname (s : str) : list Z := map z_of_str (split_f "." s).
 Definition parse_meta (s : str) : tmeta :=
-  match split_c ":" s with
+  match split_f ":" s with
   | [n; rv; rl; sh; ks] =>
       {| m_name := n; m_rev := str_eqb rv ["1"];
          m_rowline := match rl with ["-"] => None | _ => Some (parse_ints rl) end;
@@ -47,16 +60,16 @@ Definition parse_key (s : str) : key :=
   | _ => KeyInt 0
   end.
 Definition parse_item (s : str) : item :=
-  match split_c ":" s with
+  match split_f ":" s with
   | [sp; k; c] => {| i_spec := sp; i_key := parse_key k; i_col := z_of_str c |}
   | _ => {| i_spec := []; i_key := KeyInt 0; i_col := 0 |}
   end.
 Definition parse_state (s : str) : hstate :=
-  match split_c "/" s with
+  match split_f "/" s with
   | [i; t; k] => {| h_idx := z_of_str i; h_time := z_of_str t; h_step := z_of_str k; h_tabs := []; h_cur := 0 |}
   | _ => {| h_idx := 0; h_time := 0; h_step := 0; h_tabs := []; h_cur := 0 |}
   end.
-Definition parse_sim (s : str) : sim := match s with ["A"] => AUT | ["P"] => TP | _ => T2 end.
+Definition parse_sim (s : str) : sim := match s with ["A"] => AUT | ["P"] | ["Q"] => TP | _ => T2 end.
 
 Definition show_state (s : hstate) : str :=
   show_z (h_idx s) ++ ["/"] ++ show_z (h_time s) ++ ["/"] ++ show_z (h_step s).
@@ -69,29 +82,33 @@ Definition show_series (c : option conv) (s : option series) : str :=
       c_table c ++ [":"] ++ show_z (c_line c) ++ [":"] ++ concat (map show_landing (s_at s)) ++ [";"]
   | _, _ => ["D"; ";"]
   end.
+Definition bit (b : bool) : ascii := if b then "1" else "0".
 
 Definition run_sel (fuel : nat) (F : hfile) (ms : list tmeta) (st : hstate) (q : str) : str :=
   match q with
   | sh :: "!" :: items =>
       let sel := map parse_item (split_term ";" items) in
-      match history fuel F ms sel (ceqb sh "1") st with
+      let short := ceqb sh "1" in
+      let cs := match mapM (convert ms) sel with Ok cs => cs | Raise _ => [] end in
+      let targets := selected_tables cs in
+      [bit (wf_file F); bit (wf_metas ms); bit (covers F short targets); bit (file_hangs F short targets); "|"] ++
+      match history fuel F ms sel short st with
       | Raise e => s2l "RAISE " ++ show_exn e
       | Ok (HNone, s') => s2l "NONE@" ++ show_state s'
       | Ok (HSeries l, s') =>
-          let cs := match mapM (convert ms) sel with Ok cs => cs | Raise _ => [] end in
           concat (map (fun p => show_series (fst p) (snd p)) (combine cs l)) ++ ["@"] ++ show_state s'
       end
   | _ => s2l "BADSEL"
   end.
 
 Definition run_case (line : str) : str :=
-  match fields line with
+  match split_f tab line with
   | k :: sm :: sts :: sets :: metas :: st :: fl :: sels =>
       if str_eqb k (s2l "hist") then
-        let F := {| hsim := parse_sim sm; hshort_types := map parse_kind sts; hsets := map parse_set (split_term ";" sets) |} in
+        let F := {| hsim := parse_sim sm; hfix := str_eqb sm ["Q"]; hshort_types := map parse_kind sts; hsets := map parse_set (split_term ";" sets) |} in
         let ms := map parse_meta (split_term ";" metas) in
         let s0 := parse_state st in
-        let fuel := nat_of_str fl in
+        let fuel := match fl with ["B"] => fuel_bound F | _ => nat_of_str fl end in
         join [tab] (map (run_sel fuel F ms s0) sels)
       else s2l "BADCASE"
   | _ => s2l "BADCASE"
